@@ -33,8 +33,10 @@ def normalised(path, name):
             and isinstance(body[0].value.value, str):
         body = body[1:]
     params = [a.arg for a in fn.args.posonlyargs + fn.args.args + fn.args.kwonlyargs]
-    if fn.args.vararg or fn.args.kwarg:
-        raise TranslatorError(f"{name}: *args/**kwargs in the signature")
+    if fn.args.vararg:
+        raise TranslatorError(f"{name}: *args in the signature")
+    if fn.args.kwarg:
+        params.append("**" + fn.args.kwarg.arg)
     stores = []
     for st in body:
         for n in sorted((x for x in ast.walk(st) if isinstance(x, ast.Name) and isinstance(x.ctx, ast.Store)),
@@ -108,6 +110,39 @@ EXPECTED = [
          "coefficients=[numpy.asarray(poly.values[v0])], names=poly.indeterminants, retain_coefficients=True, "
          "retain_names=True)[numpy.newaxis] for v0, v1 in zip(poly.keys, poly.exponents)])"),
     ]),
+    ("array_function/argmin.py", "argmin", ["a", "axis", "out"], [
+        ("operand_is_aspolynomial", "a = numpoly.aspolynomial(a)"),
+        ("options_read", "v0 = numpoly.get_options()"),
+        ("ranks_of_the_array", "v1 = numpoly.sortable_proxy(a, graded=v0['sort_graded'], reverse=v0['sort_reverse'])"),
+        ("numpy_argmin_of_ranks", "return numpy.argmin(v1, axis=axis, out=out)"),
+    ]),
+    ("array_function/argmax.py", "argmax", ["a", "axis", "out"], [
+        ("operand_is_aspolynomial", "a = numpoly.aspolynomial(a)"),
+        ("options_read", "v0 = numpoly.get_options()"),
+        ("ranks_of_the_reversed_array_reversed_back",
+         "v1 = numpoly.sortable_proxy(a.ravel()[::-1], graded=v0['sort_graded'], reverse=v0['sort_reverse'])[::-1].reshape(a.shape)"),
+        ("numpy_argmax_of_ranks", "return numpy.argmax(v1, axis=axis, out=out)"),
+    ]),
+    ("array_function/amin.py", "amin", ["a", "axis", "out", "**kwargs"], [
+        ("out_ignored", "del out"),
+        ("operand_is_aspolynomial", "v0 = numpoly.aspolynomial(a)"),
+        ("options_read", "v1 = numpoly.get_options()"),
+        ("ranks_of_the_array", "v2 = numpoly.sortable_proxy(v0, graded=v1['sort_graded'], reverse=v1['sort_reverse'])"),
+        ("smallest_rank", "v3 = numpy.amin(v2, axis=axis, **kwargs)"),
+        ("position_of_that_rank", "v4 = numpy.argsort(v2.ravel())[v3.ravel()]"),
+        ("element_there", "out = v0.ravel()[v4]"),
+        ("reshaped", "return numpoly.reshape(out, v3.shape)"),
+    ]),
+    ("array_function/amax.py", "amax", ["a", "axis", "out", "**kwargs"], [
+        ("out_ignored", "del out"),
+        ("operand_is_aspolynomial", "a = numpoly.aspolynomial(a)"),
+        ("options_read", "v0 = numpoly.get_options()"),
+        ("ranks_of_the_array", "v1 = numpoly.sortable_proxy(a, graded=v0['sort_graded'], reverse=v0['sort_reverse'])"),
+        ("largest_rank", "v2 = numpy.amax(v1, axis=axis, **kwargs)"),
+        ("position_of_that_rank", "v3 = numpy.argsort(v1.ravel())[v2.ravel()]"),
+        ("element_there", "out = a.ravel()[v3]"),
+        ("reshaped", "return numpoly.reshape(out, v2.shape)"),
+    ]),
     ("set_dimensions.py", "set_dimensions", ["poly", "dimensions"], [
         ("operand_is_aspolynomial", "poly = numpoly.aspolynomial(poly)"),
         ("default_is_one_more", "if dimensions is None:\n    dimensions = len(poly.names) + 1"),
@@ -148,7 +183,7 @@ EXPECTED = [
 def translate(repo):
     out = []
     for fname, fn, params, stmts in EXPECTED:
-        path = os.path.join(repo, "numpoly", "poly_function", fname)
+        path = os.path.join(repo, "numpoly", fname if "/" in fname else os.path.join("poly_function", fname))
         got_params, got = normalised(path, fn)
         if got_params != params:
             raise TranslatorError(f"{fn}: signature {got_params}, modelled {params}")
